@@ -12,7 +12,7 @@ RULE = ("emergency tables (1..32 errors, register bit 0..7 each, class sharing, 
         "communication/1014h rewrites incl. disabling: complete enumeration to the depth bound on a 4-error table (two errors sharing a "
         "class, one generic) plus random histories; after EVERY step frames, COEmcyCnt, COEmcyGet, 1001h and 1003h:0..depth (API and SDO) "
         "are compared with the reference model; non-trivial = history with >= 2 real transitions; distinct by script")
-ASSUMPTIONS = ["error indices < table length (API precondition)", "reading 1003h above the stored count is not constrained",
+ASSUMPTIONS = ["error indices < table length (API precondition), or >= CO_EMCY_N with a full table (documented: treated as the last row)", "reading 1003h above the stored count is not constrained",
                "whether the history survives a reset communication is not constrained (the model adopts the observed count after a reset)"]
 VARIANTS = ["asan"]
 
@@ -39,7 +39,7 @@ class EModel:
 
     def frame(self, code, usr):
         data = bytes([code & 0xFF, code >> 8, self.register()]) + (usr if usr else bytes(5))
-        return (self.emcy_id & 0x1FFFFFFF, data)
+        return (self.emcy_id & 0x3FFFFFFF, data)      # bit 29 (29-bit identifier) is handed to the driver with the identifier
 
     def set(self, e, usr=None, hist=0):
         if self.active[e]:
@@ -121,6 +121,10 @@ def do_op(sim, m, op, nid, fail, rng):
     elif k == "clr":
         want = m.clr(op[1])
         evs = sim.cmd("emcyclr %d" % op[1])
+    elif k in ("setx", "clrx"):
+        # an error identifier beyond the table of CO_EMCY_N rows: the library maps it to the last row
+        want = m.set(len(m.table) - 1) if k == "setx" else m.clr(len(m.table) - 1)
+        evs = sim.cmd("%s %d" % ("emcyset" if k == "setx" else "emcyclr", op[1]))
     elif k == "reset":
         want = m.reset(op[1])
         evs = sim.cmd("emcyreset %d" % op[1])
@@ -266,7 +270,9 @@ def work(item, ctx):
                     n = len(table)
                     for _ in range(rng.choice([20, 50, 100])):
                         x = rng.random()
-                        if x < 0.3:
+                        if x < 0.06 and n == 32:
+                            ops.append((rng.choice(["setx", "clrx"]), rng.choice([32, 33, 39, 40, 47, 100, 255])))
+                        elif x < 0.3:
                             ops.append(("set", rng.randrange(n)))
                         elif x < 0.4:
                             ops.append(("set", rng.randrange(n), rng.getrandbits(16), gen.rand_bytes(rng, 5)))
@@ -281,7 +287,7 @@ def work(item, ctx):
                         elif x < 0.92:
                             ops.append(("nmt", rng.choice([1, 2, 128, 130])))
                         else:
-                            ops.append(("id", rng.choice([0x80000080 + nid, 0x80 + nid, 0x80000090, 0x90, 0x100, 0x7F, 0x80000000 | 0x7F])))
+                            ops.append(("id", rng.choice([0x80000080 + nid, 0x80 + nid, 0x80000090, 0x90, 0x100, 0x7F, 0x80000000 | 0x7F, 0xA0012345, 0x20012345, 0xA0000080 + nid, 0x20000080 + nid])))
                     if not run_history(res, sim, cfg, nid, table, depth, ops, rng, sample=(item[1] == 0 and h == 0)):
                         break
                 finally:
